@@ -178,50 +178,45 @@ def witnessF9 : Session :=
     git := { installed := true, top := some ["p".toList],
              tracked := [["sub".toList, "data".toList, "tracked.txt".toList]] } }
 
-/-- **known_covers_full is false of the current code (F9).** With the project root in a sub-directory of the git
-repository the tracked file is not in `known_paths`: `git ls-files` prints paths relative to the root, and they are
-joined onto `root/..`. -/
-theorem C11_known_covers_full_false : ¬ C11_known_covers_full := by
-  intro h
-  have := h witnessF9 ["p".toList, "sub".toList, "data".toList, "tracked.txt".toList]
-    (Or.inr (Or.inr (Or.inr (Or.inr ⟨rfl, ["p".toList], ["sub".toList, "data".toList, "tracked.txt".toList],
-      rfl, by decide, by decide, by decide, by decide⟩))))
-  revert this
-  decide
-
 /-- F16 witness: a task whose dependency is `DirectoryNode(root_dir="/r/data", pattern="*.csv")`. -/
 def witnessF16 : Session :=
   { root := ["r".toList], config := none, paths := [["r".toList]], taskPaths := [["r".toList, "task_dn.py".toList]],
     nodePaths := [], provisionalPaths := [["r".toList, "data".toList, "u1.csv".toList]], userExclude := [],
     directories := false, git := { installed := false, top := none, tracked := [] } }
 
-/-- A second, independent refutation (F16): the files a declared `DirectoryNode` resolves to are not known. -/
-theorem C11_known_covers_full_false_F16 :
-    SpecProtected witnessF16 ["r".toList, "data".toList, "u1.csv".toList] ∧
-    isKnown witnessF16 ["r".toList, "data".toList, "u1.csv".toList] = false :=
-  ⟨Or.inr (Or.inr (Or.inl (by decide))), by decide⟩
+/-- the former F16 witness is now known -/
+example : isKnown witnessF16 ["r".toList, "data".toList, "u1.csv".toList] = true := by decide
 
-/-- The specification's protected paths without the two defect classes: git-tracked files count only when the
-project root is the top-level directory of the repository (not F9), and `DirectoryNode` matches do not count (not F16). -/
-def SpecProtectedPartial (s : Session) (p : Path) : Prop :=
-  p ∈ s.taskPaths ∨ p ∈ s.nodePaths ∨ s.config = some p ∨
-  (s.git.installed = true ∧ s.git.top = some s.root ∧ ∃ rel ∈ s.git.tracked, p = s.root ++ rel)
-
-/-- **known_covers_partial.** Task modules, declared path dependencies and products, the configuration file and —
-when the project root is the repository's top-level directory — every file tracked by git are in `known_paths`. -/
-theorem C11_known_covers_partial (s : Session) (p : Path) (h : SpecProtectedPartial s p) : isKnown s p = true := by
+/-- **known_covers_full holds**: everything the specification protects is in `known_paths`. -/
+theorem C11_known_covers_full_holds : C11_known_covers_full := by
+  intro s p h
   unfold isKnown
   rw [List.contains_iff_mem]
   unfold knownPaths
-  rcases h with h | h | h | ⟨hi, ht, rel, hrel, rfl⟩
+  rcases h with h | h | h | h | ⟨hi, top, rel, ht, ⟨dd, hroot⟩, hrel, rfl, hpre⟩
   · simp [h]
   · simp [h]
+  · simp [h, Generated.cleanKnowsProvisional]
   · simp [h]
-  · have : s.root ++ rel ∈ gitKnown s := by
+  · have hd : dd <+: rel := by
+      rw [← hroot] at hpre; exact (List.prefix_append_right_inj top).1 hpre
+    obtain ⟨rel', rfl⟩ := hd
+    have : top ++ (dd ++ rel') ∈ gitKnown s := by
+      have e1 : (Generated.gitLsFilesCwd == "git_root") = false := by decide
+      have e2 : (Generated.gitJoinBase == "root") = true := by decide
+      have e3 : Generated.gitLsFilesFullName = false := rfl
       unfold gitKnown lsFiles gitRoot
-      simp only [hi, ht, ↓reduceIte]
-      simp [Generated.gitLsFilesCwd, Generated.gitJoinBase, Generated.gitRootResolved, Generated.gitLsFilesFullName, hrel]
+      simp only [hi, ht, ↓reduceIte, e1, e2, e3, Bool.false_eq_true, ← hroot, List.drop_left', List.length_append]
+      apply List.mem_append_left
+      simp only [List.mem_map, List.mem_filter]
+      refine ⟨rel', ⟨dd ++ rel', ⟨hrel, by simp⟩, by simp⟩, by simp⟩
     simp [this]
+
+/-- Kept under its old name: the protected paths of the specification. -/
+abbrev SpecProtectedPartial := SpecProtected
+
+theorem C11_known_covers_partial (s : Session) (p : Path) (h : SpecProtectedPartial s p) : isKnown s p = true :=
+  C11_known_covers_full_holds s p h
 
 /-- **Composition.** A file that exists and is a task module, a declared path node, the configuration file, tracked
 by git (root = repository top) or matched by an exclude pattern — from the command line / configuration file, or
@@ -301,25 +296,11 @@ def C11_never_offered_full : Prop :=
   ∀ (s : Session) (fs : FTree), WF fs → ∀ (q : Path) (n : Name), subtree fs q = some (.file n) → SpecProtected s q →
     ∀ p ∈ unknownPaths s fs, ¬ p <+: q
 
-/-- The file tree of the F9 witness: `/p/.git/HEAD`, `/p/sub/{pyproject.toml, .pytask/.gitignore, data/{tracked,untracked}.txt}`. -/
-def fsF9 : FTree :=
-  .dir [] [.dir "p".toList [
-    .dir ".git".toList [.file "HEAD".toList],
-    .dir "sub".toList [
-      .file "pyproject.toml".toList,
-      .dir ".pytask".toList [.file ".gitignore".toList],
-      .dir "data".toList [.file "tracked.txt".toList, .file "untracked.txt".toList]]]]
-
-/-- **False of the current code (F9)**: in the witness the model of `pytask clean` offers the tracked file
-`/p/sub/data/tracked.txt` (as the real command does). -/
-theorem C11_never_offered_full_false : ¬ C11_never_offered_full := by
-  intro h
-  have := h witnessF9 fsF9 (wfB_sound _ (by decide)) ["p".toList, "sub".toList, "data".toList, "tracked.txt".toList]
-    "tracked.txt".toList (by rfl)
-    (Or.inr (Or.inr (Or.inr (Or.inr ⟨rfl, ["p".toList], ["sub".toList, "data".toList, "tracked.txt".toList],
-      rfl, by decide, by decide, by decide, by decide⟩))))
-    ["p".toList, "sub".toList, "data".toList, "tracked.txt".toList] (by decide)
-  exact this (List.prefix_refl _)
+/-- **The property at full strength holds**: no existing file that the specification protects is offered or lies
+inside an offered directory. -/
+theorem C11_never_offered_full_holds : C11_never_offered_full := by
+  intro s fs hwf q n hq hprot
+  exact C11_never_offered_partial s fs hwf q n hq (Or.inl hprot)
 
 /-- A project: task module, declared dependency, a tracked file, junk, a build directory with only junk, a log
 file excluded by `-e "*.log"`, the cache folder; repository top = project root. -/
@@ -351,7 +332,10 @@ example : subtree exFs ["r".toList, "bld".toList] = some (.dir "bld".toList [.fi
 example : subtree exFs ["r".toList, "junk.txt".toList] = some (.file "junk.txt".toList) := by rfl
 /-- hypotheses of `C11_never_offered_partial`: a tracked file with root = top, and an exclude match -/
 example : SpecProtectedPartial exS ["r".toList, "src".toList, "helper.py".toList] :=
-  Or.inr (Or.inr (Or.inr ⟨rfl, rfl, ["src".toList, "helper.py".toList], by decide, by decide⟩))
+  Or.inr (Or.inr (Or.inr (Or.inr ⟨rfl, ["r".toList], ["src".toList, "helper.py".toList], rfl, by decide, by decide, by decide, by decide⟩)))
+/-- the former F9 witness is now protected -/
+example : SpecProtectedPartial witnessF9 ["p".toList, "sub".toList, "data".toList, "tracked.txt".toList] :=
+  Or.inr (Or.inr (Or.inr (Or.inr ⟨rfl, ["p".toList], ["sub".toList, "data".toList, "tracked.txt".toList], rfl, by decide, by decide, by decide, by decide⟩)))
 example : ∃ pat ∈ configExclude exS.root exS.userExclude, pmatch ["r".toList, "keep.log".toList] pat = true :=
   ⟨"*.log".toList, by decide, by decide⟩
 /-- hypotheses of `C11_pytask_dir_safe` / `C11_below_excluded` -/
